@@ -4,6 +4,7 @@ import (
 	"bytes"
 	"fmt"
 	"math/big"
+	"strings"
 	"time"
 
 	"go.sia.tech/core/consensus"
@@ -86,8 +87,11 @@ func (w *World) onWire(kind string, v any, enc []byte) {
 	case "block":
 		b := v.(types.Block)
 		w.stats.Inc("probe.wire.block")
-		db, err := decodeBlock(enc)
+		db, err := decodeBlockSafe(enc)
 		if err != nil {
+			if strings.HasPrefix(err.Error(), "decode panicked") {
+				w.violate("C10", "decode-panic", fmt.Sprintf("decoding block %s from its own encoding: %v", short(b.ID()), err))
+			}
 			w.violate("C11", "block-roundtrip-decode", fmt.Sprintf("decode(encode(block %s)) failed: %v", short(b.ID()), err))
 			if b.V2 != nil && len(b.V2.Transactions) > 0 {
 				w.violate("C18", "multiproof-roundtrip-decode", fmt.Sprintf("block %s in compressed (multiproof) form cannot be decoded again: %v", short(b.ID()), err))
@@ -195,7 +199,7 @@ func (w *World) onWire(kind string, v any, enc []byte) {
 		for i, t := range b.V2Transactions() {
 			w.wireV2Txn(t, fmt.Sprintf("block %s v2 txn %d", short(b.ID()), i))
 		}
-		w.truncations("block", enc, func(p []byte) error { _, err := decodeBlock(p); return err })
+		w.truncations("block", enc, func(p []byte) error { _, err := decodeBlockSafe(p); return err })
 	case "state":
 		s := v.(consensus.State)
 		var rw ref.W
